@@ -100,13 +100,21 @@ def payload_obs(tier, rnd):
             pos = positions(n, rnd, k)
             params = [R(f"e{p}", lo, hi) for p in pos]
             sets = "\n".join(f"    mod.{attr}.values[{p}] = e{p}" for p in pos)
+            p2 = pos[len(pos) // 2]
             body = f"""
     mod = {cls_expr(mt)}()
 {sets}
     s1 = snap_module(mod, groups=("type", "payload"))
     {ctx_code(ctx)}
-    return same(s1, snap_module(m2, groups=("type", "payload")))
+    if not same(s1, snap_module(m2, groups=("type", "payload"))):
+        return False
+    # the module has been serialised once; an in-place edit afterwards must be what the next save writes
+    mod.{attr}.values[{p2}] = again
+    s3 = snap_module(mod, groups=("type", "payload"))
+    {ctx_code(ctx).replace("m2 =", "m4 =")}
+    return same(s3, snap_module(m4, groups=("type", "payload"))) and m4.{attr}.values[{p2}] == again
 """
+            params = params + [R("again", lo, hi)]
             obs.append(Ob(f"payload.{ctx}.{mt}.{attr}", build(params, body, setup=SETUP), f"{mt}.{attr} ({n} elements) survives {ctx} round trip element by element",
                           group="payload", shape=f"{ctx}({mt}); positions {pos if len(pos) <= 12 else str(pos[:12]) + '...'} symbolic, the rest default",
                           symbolic=f"{len(pos)} elements over {lo}..{hi}", timeout=240))
